@@ -51,6 +51,7 @@ func c10Stream(r *fw.Rand, mtu int) (calls []c10Call, expect [][]byte, pairs map
 	var kinds []byte
 	total := 0
 	needSlice := false
+	var lastSPS, lastPPS []byte
 	many := r.Chance(1, 60) // access units with very many small NAL units (slices, SEI): any fixed-size table inside overflows
 	for cidx := 0; cidx < ncalls; cidx++ {
 		n := r.Range(1, 6)
@@ -87,6 +88,42 @@ func c10Stream(r *fw.Rand, mtu int) (calls []c10Call, expect [][]byte, pairs map
 						sps, pps = gen.H264Unit(r, 7, ss), gen.H264Unit(r, 8, ps)
 					}
 				}
+				if lastSPS != nil && r.Chance(1, 2) {
+					// a second pair that resembles the first: same lengths, one byte changed, or the same bytes cut at another place
+					// (whatever is remembered about the previous pair must be compared completely before it is reused)
+					cs, cp := sps, pps
+					switch r.Intn(3) {
+					case 0:
+						cs, cp = gen.H264Unit(r, 7, len(lastSPS)), gen.H264Unit(r, 8, len(lastPPS))
+					case 1:
+						cs, cp = append([]byte(nil), lastSPS...), append([]byte(nil), lastPPS...)
+						if len(cs) > 2 && r.Bool() {
+							cs[1+r.Intn(len(cs)-2)] ^= 0x10
+						} else if len(cp) > 2 {
+							cp[1+r.Intn(len(cp)-2)] ^= 0x10
+						}
+					default:
+						// SPS2 = SPS1[:c], PPS2 = SPS1[c+2:] || BE16(len PPS1) || PPS1: the same octets in the same order, split elsewhere
+						if n := len(lastSPS); n >= 8 {
+							c := r.Range(2, n-4)
+							old := lastSPS[c+2]
+							lastSPS[c+2] = old&0x60 | 8 // (both unit lists share this slice: the first pair is what it is now)
+							s2 := append([]byte(nil), lastSPS[:c]...)
+							p2 := append([]byte(nil), lastSPS[c+2:]...)
+							p2 = append(p2, byte(len(lastPPS)>>8), byte(len(lastPPS)))
+							p2 = append(p2, lastPPS...)
+							if gen.NALOK(lastSPS) && len(p2) < 60000 {
+								cs, cp = s2, p2
+							} else {
+								lastSPS[c+2] = old
+							}
+						}
+					}
+					if gen.NALOK(cs) && gen.NALOK(cp) && len(cs) >= 2 && len(cp) >= 2 {
+						sps, pps = cs, cp
+					}
+				}
+				lastSPS, lastPPS = sps, pps
 				all = append(all, sps, pps)
 				kinds = append(kinds, 'S', 'P')
 				needSlice = true
